@@ -160,13 +160,50 @@ def addUnique (existing : List Name) (base : Nat) : List Name := existing ++ [un
 
 inductive Api | assertThat | assert_that | expectThat
 deriving DecidableEq, Repr
-inductive Outcome | success | failure | error
+/-- what the result is told in the end: addSuccess / addFailure / addError / addSkip / addExpectedFailure /
+addUnexpectedSuccess -/
+inductive Outcome | success | failure | error | skip | xfail | uxsuccess
 deriving DecidableEq, Repr
+
+/-- what a stage of the test (the rest of the body after the call, `tearDown`, a cleanup) does:
+return, `self.skipTest(..)`, `self.expectFailure(..)` around a failing / a passing predicate
+(`_ExpectedFailure` / `_UnexpectedSuccess`), `self.fail(..)`, `raise ValueError`, `raise KeyboardInterrupt` -/
+inductive Act | ret | skip | xfail | uxsuccess | failure | error | interrupt
+deriving DecidableEq, Repr
+
+/-- the exceptions `RunTest` collects in `_exceptions`, by the handler that claims them
+(`intr`: claimed by none, it has to propagate) -/
+inductive Exn | skip | xfail | uxsuccess | fail | err | intr
+deriving DecidableEq, Repr
+
+def Act.exn : Act → Option Exn
+  | .ret => none | .skip => some .skip | .xfail => some .xfail | .uxsuccess => some .uxsuccess
+  | .failure => some .fail | .error => some .err | .interrupt => some .intr
+
+/-- `_report_skip` and `_report_expected_failure`: outcomes that must never mask a problem -/
+def Exn.benign : Exn → Bool
+  | .skip => true | .xfail => true | _ => false
+
+def Exn.outcome : Exn → Outcome
+  | .skip => .skip | .xfail => .xfail | .uxsuccess => .uxsuccess | .fail => .failure | .err => .error
+  | .intr => .error          -- last_resort = _report_error, then the exception is re-raised
+
+/-- `RunTest._select_exception`: an exception no handler claims always wins; otherwise the last one that
+is not a skip / expected failure; otherwise the last one -/
+def selectExn (es : List Exn) : Option Exn :=
+  match es.find? (· == .intr) with
+  | some e => some e
+  | none => match es.reverse.find? (fun e => !e.benign) with
+    | some e => some e
+    | none => es.getLast?
 
 structure AssertIn where
   api : Api
   existing : List Name               -- details the test already has
   mismatch : Option (List Nat)       -- what match() returned: none = None, some ds = a Mismatch whose get_details() has the names ds
+  after : Act := .ret                -- what the test body does after the call (if the call returned)
+  tearDown : Act := .ret
+  cleanups : List Act := []          -- cleanups registered (in this order) at the start of the body; they run last-in first-out
 deriving Repr
 
 structure AssertOut where
@@ -175,22 +212,35 @@ structure AssertOut where
   names : List Name                  -- detail names right after the call
   forceFailure : Bool
   outcome : Outcome                  -- what the test run reports in the end
+  propagated : Bool := false         -- `run()` let an exception (KeyboardInterrupt) propagate
 deriving DecidableEq, Repr
 
-/-- `_matchHelper` + the three entry points + the end of the run -/
+def somesExn : List (Option Exn) → List Exn
+  | [] => []
+  | none :: r => somesExn r
+  | some e :: r => e :: somesExn r
+
+/-- the exceptions of the run in the order `_run_core` collects them: body, tearDown, cleanups (LIFO) and —
+last, whenever `force_failure` is set — the `AssertionError("Forced Test Failure")` -/
+def stageExns (callRaised : Bool) (i : AssertIn) : List Exn :=
+  somesExn ((if callRaised then some Exn.fail else i.after.exn) :: i.tearDown.exn :: i.cleanups.reverse.map Act.exn)
+def runExns (callRaised forceFailure : Bool) (i : AssertIn) : List Exn :=
+  stageExns callRaised i ++ (if forceFailure then [Exn.fail] else [])
+
+/-- `_matchHelper` + the three entry points + the rest of `RunTest._run_core` / `_run_prepared_result` -/
 def assertModel (i : AssertIn) : AssertOut :=
+  let finish (raised : Bool) (names : List Name) (ff : Bool) : AssertOut :=
+    let sel := selectExn (runExns raised ff i)
+    { raised := raised, continued := !raised, names := names, forceFailure := ff,
+      outcome := match sel with | none => .success | some e => e.outcome,
+      propagated := sel == some .intr }
   match i.mismatch with
-  | none => { raised := false, continued := true, names := i.existing, forceFailure := false, outcome := .success }
+  | none => finish false i.existing false
   | some ds =>
     match i.api with
-    | .assert_that =>          -- plain function: no test to attach details to
-      { raised := true, continued := false, names := i.existing, forceFailure := false, outcome := .failure }
-    | .assertThat =>
-      { raised := true, continued := false, names := ds.foldl addUnique i.existing, forceFailure := false,
-        outcome := .failure }
-    | .expectThat =>
-      { raised := false, continued := true, names := addUnique (ds.foldl addUnique i.existing) 0,
-        forceFailure := true, outcome := .failure }
+    | .assert_that => finish true i.existing false          -- plain function: no test to attach details to
+    | .assertThat => finish true (ds.foldl addUnique i.existing) false
+    | .expectThat => finish false (addUnique (ds.foldl addUnique i.existing) 0) true
 
 /-! ## C07 input / trace -/
 inductive Input
